@@ -338,11 +338,13 @@ impl<T> NCReadStream<T> {
     /// Return true if there is nothing more ever to read from the stream.
     #[must_use]
     pub fn eof(&self) -> bool {
-        if !self.q.0.lock().unwrap().is_empty() {
-            false
-        } else {
-            Arc::strong_count(&self.q) == 1
+        // Same order as ReadStream::eof(): writer liveness first, emptiness
+        // second. Otherwise a packet pushed just before the writer went away
+        // is missed.
+        if Arc::strong_count(&self.q) != 1 {
+            return false;
         }
+        self.q.0.lock().unwrap().is_empty()
     }
 }
 
